@@ -1079,6 +1079,7 @@ let run_pc_hyrax c =
       let nops = int1 c "nops" in
       let recs = Array.make nops None in
       let brecs = Array.make nops None in
+      let lrecs = Array.make nops None in
       let lab i = nlabel (int1 c (Printf.sprintf "label.%d" i)) in
       let cmpz a b = Z.compare (ofz a) (ofz b) in
       let rec cmpl a b = match a, b with [], [] -> 0 | [], _ -> -1 | _, [] -> 1 | x :: a', y :: b' -> let r = cmpz x y in if r <> 0 then r else cmpl a' b' in
@@ -1225,7 +1226,8 @@ let run_pc_hyrax c =
                      obs (Printf.sprintf "pf.%d.%d.%d.z" t g j) "F" (fs_to pf.Hyrax.hp_z);
                      obs (Printf.sprintf "pf.%d.%d.%d.s" t g j) "F" [ f_to_str pf.Hyrax.hp_zd; f_to_str pf.Hyrax.hp_zb; f_to_str pf.Hyrax.hp_reval ]) pfs) pfl;
              let cml = List.map (fun i -> (lab i, fst cs.(i))) vperm in
-             obs1 (k "check") "S" (hy_decision (DefaultBatch.default_check_combinations fo hy_check lcs cml qs eqn_ev pfl (Some evs) (vchal, [])))
+             obs1 (k "check") "S" (hy_decision (DefaultBatch.default_check_combinations fo hy_check lcs cml qs eqn_ev pfl (Some evs) (vchal, [])));
+             lrecs.(t) <- Some (lcs, qs, eqn_ev, pfl, evs, vperm)
            | _ -> ())
         | _ -> ()
       done;
@@ -1313,7 +1315,41 @@ let run_pc_hyrax c =
                      obs1 name "S" (hy_decision (DefaultBatch.default_batch_check fo hy_check cml qs evm !pfl (mchal, [])))
                    end
                  end
-               | None -> ())
+               | None ->
+                 (match lrecs.(t) with
+                  | Some (lcs0, qs, eqn_ev0, pfl, evs, vperm) ->
+                    let lcs = ref lcs0 and pfl = ref pfl and evs = ref evs and ok = ref true and deltas = ref [] in
+                    let upd kk f = lcs := List.mapi (fun i (lb, terms) -> if i = kk then (lb, f terms) else (lb, terms)) !lcs in
+                    (match kind with
+                     | "value" -> deltas := [ (int_of_string (arg 0), f_of_str (arg 1)) ]
+                     | "coeff" -> let kk = int_of_string (arg 0) and tk = int_of_string (arg 1) in
+                       if kk < List.length !lcs && tk < List.length (snd (List.nth !lcs kk)) then
+                         upd kk (List.mapi (fun i (co, tm) -> if i = tk then (fo.Field.fadd co (f_of_str (arg 2)), tm) else (co, tm)))
+                       else ok := false
+                     | "const" -> let kk = int_of_string (arg 0) in
+                       if kk < List.length !lcs then upd kk (fun terms -> terms @ [ (f_of_str (arg 1), LC.TOne) ]) else ok := false
+                     | "evals" -> let a = int_of_string (arg 0) in
+                       if a < List.length !evs then evs := List.mapi (fun i v -> if i = a then fo.Field.fadd v (f_of_str (arg 1)) else v) !evs else ok := false
+                     | "comm_swap" -> let i = int_of_string (arg 0) and j = int_of_string (arg 1) in rowsa.(i) <- fst cs.(j)
+                     | "proofs" ->
+                       let len = List.length !pfl in
+                       (match arg 0 with
+                        | "empty" -> pfl := []
+                        | "trunc" -> let kk = int_of_string (arg 1) in if kk < len then pfl := List.filteri (fun i _ -> i < kk) !pfl else ok := false
+                        | "extend" -> if len > 0 then pfl := !pfl @ [ List.nth !pfl (len - 1) ] else ok := false
+                        | _ -> ok := false)
+                     | "sponge_pre" -> ()
+                     | _ -> ok := false);
+                    if !ok then begin
+                      let nk = List.length eqn_ev0 in
+                      if List.exists (fun (kk, _) -> kk >= nk) !deltas then ()
+                      else begin
+                        let eqn_ev = List.mapi (fun idx (kx, v) -> (kx, List.fold_left (fun acc (kk, d) -> if kk = idx then fo.Field.fadd acc d else acc) v !deltas)) eqn_ev0 in
+                        let cml = List.map (fun i -> (lab i, rowsa.(i))) vperm in
+                        obs1 name "S" (hy_decision (DefaultBatch.default_check_combinations fo hy_check !lcs cml qs eqn_ev !pfl (Some !evs) (mchal, [])))
+                      end
+                    end
+                  | None -> ()))
           end)
         (indexed c "mut")
     end
@@ -1351,6 +1387,7 @@ let run_pc_ipa c =
        let recs = Array.make nops None in
        let tape_of k = if has c k then fs_of c k else [] in
        let brecs = Array.make nops None in
+       let lrecs = Array.make nops None in
        let cmpz a b = Z.compare (ofz a) (ofz b) in
        (* query set and evaluations in BTreeSet / BTreeMap order; value deltas by position in the map, one evaluation dropped *)
        let ipa_qs_ev tr3 deltas drop =
@@ -1487,7 +1524,8 @@ let run_pc_ipa c =
                  obs1 (k "check") "S" (if b then "accept" else "reject");
                  obs1 (k "nvchal") "N" (string_of_int (List.length vchal - List.length vrest));
                  obs1 (k "check_draws") "N" (string_of_int (int_of_nat draws))
-               | _ -> obs1 (k "check") "S" "refused")
+               | _ -> obs1 (k "check") "S" "refused");
+              lrecs.(t) <- Some (lcs, qs, evm, pfl, vperm)
             | _ -> ())
          | _ -> ()
        done;
@@ -1578,7 +1616,40 @@ let run_pc_ipa c =
                           | Result.Ok (((b, _), _), _) -> Result.Ok b | Result.Err e -> Result.Err e | Result.Panic -> Result.Panic))
                     end
                   end
-                | None -> ())
+                | None ->
+                  (match lrecs.(t) with
+                   | Some (lcs0, qs, evm0, pfl, vperm) ->
+                  let lcs = ref lcs0 and pfl = ref pfl and ok = ref true and deltas = ref [] in
+                  let upd kk f = lcs := List.mapi (fun i (lb, terms) -> if i = kk then (lb, f terms) else (lb, terms)) !lcs in
+                  (match kind with
+                   | "value" -> deltas := [ (int_of_string (arg 0), f_of_str (arg 1)) ]
+                   | "coeff" -> let kk = int_of_string (arg 0) and tk = int_of_string (arg 1) in
+                     if kk < List.length !lcs && tk < List.length (snd (List.nth !lcs kk)) then
+                       upd kk (List.mapi (fun i (co, tm) -> if i = tk then (fo.Field.fadd co (f_of_str (arg 2)), tm) else (co, tm)))
+                     else ok := false
+                   | "const" -> let kk = int_of_string (arg 0) in
+                     if kk < List.length !lcs then upd kk (fun terms -> terms @ [ (f_of_str (arg 1), LC.TOne) ]) else ok := false
+                   | "comm_swap" -> let i = int_of_string (arg 0) and j = int_of_string (arg 1) in cms.(i) <- (fst cs.(j), snd cms.(i))
+                   | "proofs" ->
+                     let len = List.length !pfl in
+                     (match arg 0 with
+                      | "empty" -> pfl := []
+                      | "trunc" -> let kk = int_of_string (arg 1) in if kk < len then pfl := List.filteri (fun i _ -> i < kk) !pfl else ok := false
+                      | "extend" -> if len > 0 then pfl := !pfl @ [ List.nth !pfl (len - 1) ] else ok := false
+                      | _ -> ok := false)
+                   | "sponge_pre" -> ()
+                   | _ -> ok := false);
+                  if !ok then begin
+                    let nk = List.length evm0 in
+                    if List.exists (fun (kk, _) -> kk >= nk) !deltas then ()
+                    else begin
+                      let evm = List.mapi (fun idx (kx, v) -> (kx, List.fold_left (fun acc (kk, d) -> if kk = idx then fo.Field.fadd acc d else acc) v !deltas)) evm0 in
+                      let cml = List.map (fun i -> (lps.(i).Marlin.lp_label, cms.(i))) vperm in
+                      obs1 name "S" (decision (match IPABatch.i_check_combinations fo dn !lcs cml qs evm !pfl mchal mh (tape_of (Printf.sprintf "vtape.%d" t)) with
+                          | Result.Ok (((b, _), _), _) -> Result.Ok b | Result.Err e -> Result.Err e | Result.Panic -> Result.Panic))
+                    end
+                  end
+                   | None -> ()))
            end)
          (indexed c "mut")
      | _ -> ())
@@ -1646,6 +1717,7 @@ let run_pc_pst13 c =
       let recs = Array.make nops None in
       let tape_of k = if has c k then fs_of c k else [] in
       let brecs = Array.make nops None in
+      let lrecs = Array.make nops None in
       let lab i = nlabel (int1 c (Printf.sprintf "label.%d" i)) in
       let cmpz a b = Z.compare (ofz a) (ofz b) in
       let rec cmpl a b = match a, b with [], [] -> 0 | [], _ -> -1 | _, [] -> 1 | x :: a', y :: b' -> let r = cmpz x y in if r <> 0 then r else cmpl a' b' in
@@ -1748,7 +1820,8 @@ let run_pc_pst13 c =
               | Result.Ok ((b, _), draws) ->
                 obs1 (k "check") "S" (if b then "accept" else "reject");
                 obs1 (k "check_draws") "N" (string_of_int (int_of_nat draws))
-              | _ -> obs1 (k "check") "S" "refused")
+              | _ -> obs1 (k "check") "S" "refused");
+             lrecs.(t) <- Some (lcs, qs, evm, pfl, vperm)
            | _ -> ())
         | _ -> ()
       done;
@@ -1837,7 +1910,40 @@ let run_pc_pst13 c =
                          | Result.Ok ((b, _), _) -> Result.Ok b | Result.Err e -> Result.Err e | Result.Panic -> Result.Panic))
                    end
                  end
-               | None -> ())
+               | None ->
+                 (match lrecs.(t) with
+                  | Some (lcs0, qs, evm0, pfl, vperm) ->
+                  let lcs = ref lcs0 and pfl = ref pfl and ok = ref true and deltas = ref [] in
+                  let upd kk f = lcs := List.mapi (fun i (lb, terms) -> if i = kk then (lb, f terms) else (lb, terms)) !lcs in
+                  (match kind with
+                   | "value" -> deltas := [ (int_of_string (arg 0), f_of_str (arg 1)) ]
+                   | "coeff" -> let kk = int_of_string (arg 0) and tk = int_of_string (arg 1) in
+                     if kk < List.length !lcs && tk < List.length (snd (List.nth !lcs kk)) then
+                       upd kk (List.mapi (fun i (co, tm) -> if i = tk then (fo.Field.fadd co (f_of_str (arg 2)), tm) else (co, tm)))
+                     else ok := false
+                   | "const" -> let kk = int_of_string (arg 0) in
+                     if kk < List.length !lcs then upd kk (fun terms -> terms @ [ (f_of_str (arg 1), LC.TOne) ]) else ok := false
+                   | "comm_swap" -> let i = int_of_string (arg 0) and j = int_of_string (arg 1) in cma.(i) <- fst cs.(j)
+                   | "proofs" ->
+                     let len = List.length !pfl in
+                     (match arg 0 with
+                      | "empty" -> pfl := []
+                      | "trunc" -> let kk = int_of_string (arg 1) in if kk < len then pfl := List.filteri (fun i _ -> i < kk) !pfl else ok := false
+                      | "extend" -> if len > 0 then pfl := !pfl @ [ List.nth !pfl (len - 1) ] else ok := false
+                      | _ -> ok := false)
+                   | "sponge_pre" -> ()
+                   | _ -> ok := false);
+                  if !ok then begin
+                    let nk = List.length evm0 in
+                    if List.exists (fun (kk, _) -> kk >= nk) !deltas then ()
+                    else begin
+                      let evm = List.mapi (fun idx (kx, v) -> (kx, List.fold_left (fun acc (kk, d) -> if kk = idx then fo.Field.fadd acc d else acc) v !deltas)) evm0 in
+                      let cml = List.map (fun i -> (lab i, cma.(i))) vperm in
+                      obs1 name "S" (decision (match PST13Batch.pst_check_combinations fo nvn betas !lcs cml qs evm !pfl mchal (tape_of (Printf.sprintf "vtape.%d" t)) with
+                          | Result.Ok ((b, _), _) -> Result.Ok b | Result.Err e -> Result.Err e | Result.Panic -> Result.Panic))
+                    end
+                  end
+                  | None -> ()))
           end)
         (indexed c "mut")
     end
